@@ -406,6 +406,22 @@ func (x *Exec) opRelayError(st *Step) {
 	x.checkWire(x.observe(), nil, nil, nil, "injected relay socket error")
 }
 
+// opCloseControl: a stream client hangs up; its allocation goes with the control connection.
+func (x *Exec) opCloseControl(st *Step) {
+	c := x.client(st.C)
+	if !c.Stream || c.Dead {
+		return
+	}
+	c.Dead = true
+	_ = c.Conn.Close()
+	x.settle()
+	x.waitCallbacks()
+	if x.m.remove(c.Idx) != nil {
+		x.St.inc("teardown:control-connection-close")
+	}
+	x.checkWire(x.observe(), nil, nil, nil, "control connection closed by the client")
+}
+
 func (x *Exec) opCloseServer() {
 	if x.w.closed {
 		return
@@ -461,7 +477,12 @@ func Run(sc *Script, verbose bool) (x *Exec, err error) {
 		}
 		w.tracef("step %d: %+v", i, *st)
 		w.curOp = st.Op
+		if x.client(st.C).Dead && st.Op != "Sleep" && st.Op != "PeerData" && st.Op != "CloseServer" {
+			continue
+		}
 		switch st.Op {
+		case "CloseControl":
+			x.opCloseControl(st)
 		case "Allocate":
 			x.opAllocate(st)
 		case "Refresh":
